@@ -33,7 +33,7 @@ fn as_history(c: &BatchCase) -> History {
     History { cfg: c.cfg.clone(), objs: c.objs.clone(), feat_dim: c.feat_dim, ops: vec![] }
 }
 
-const SITES: [&str; 4] = ["voting.store.write", "voting.job.begin", "batch.scene.dispatched", "store.cmd.end"];
+const SITES: [&str; 6] = ["voting.store.write", "voting.job.begin", "batch.scene.dispatched", "store.cmd.end", "voting.id.assigned", "voting.id.assigned"];
 
 pub fn check_batches(c: &BatchCase) -> CaseResult {
     let h = as_history(c);
@@ -302,7 +302,7 @@ pub fn batch_case(kind: Kind) -> impl Strategy<Value = BatchCase> {
         1usize..=5,
         proptest::collection::vec((proptest::collection::vec((0usize..5, proptest::bool::weighted(0.75), proptest::collection::vec((0usize..6, proptest::bool::weighted(0.85), -0.05f32..0.05, -0.05f32..0.05, 0.3f32..1.0, proptest::bool::weighted(0.85), prop_oneof![1 => Just(None), 4 => (0.0f32..1.0).prop_map(Some)]), 0..6)), 1..6), any::<bool>()), 1..14),
         proptest::collection::vec(any::<u16>(), 32),
-        proptest::collection::vec((0u8..4, 0u8..12, 0u16..1500), 0..4),
+        proptest::collection::vec((0u8..6, 0u8..12, 0u16..3000), 0..5),
         proptest::bool::weighted(0.8),
         0u8..2,
     )
